@@ -290,6 +290,19 @@ deriving Repr
 
 def nameKey : Bytes := [95, 110, 97, 109, 101]                 -- "_name"
 
+/-- only `_name` comparisons -/
+def nameOnly : Cond → Bool
+  | .cmp k _ _ => k = nameKey
+  | .and l r => nameOnly l && nameOnly r
+  | .or l r => nameOnly l && nameOnly r
+
+/-- conditions on which measurement-level and per-series evaluation coincide: `_name` comparisons,
+    `tag = 'non-empty'`, OR, and AND with a `_name`-only side -/
+def condOK : Cond → Bool
+  | .cmp k neq v => k = nameKey || (!neq && v ≠ [])
+  | .and l r => condOK l && condOK r && (nameOnly l || nameOnly r)
+  | .or l r => condOK l && condOK r
+
 /-- `measurementNamesByNameFilter` -/
 def namesByNameFilter (a : Auth) (shs : List Shard) (neq : Bool) (val : Bytes) : List Bytes :=
   (measNames shs).filter fun m => (if neq then m ≠ val else m = val) && measAuthorized a shs m
